@@ -99,13 +99,13 @@ def pawnCap : Nat := Gen.pawnCap
 @[inline] def bgetI (b : Array Nat) (i : Int) : M Nat :=
   if i < 0 then throw (.index "board" i) else bget b i.toNat
 
-@[inline] def tget (t : List Nat) (what : String) (i : Int) : M Nat :=
+@[inline] def tget (t : Array Nat) (what : String) (i : Int) : M Nat :=
   if i < 0 then throw (.index what i) else
   match t[i.toNat]? with
   | some v => pure v
   | none => throw (.index what i)
 
-@[inline] def tgetI (t : List Int) (what : String) (i : Nat) : M Int :=
+@[inline] def tgetI (t : Array Int) (what : String) (i : Nat) : M Int :=
   match t[i]? with
   | some v => pure v
   | none => throw (.index what i)
